@@ -17,16 +17,41 @@ fn no_random_int(
     Err(0)
 }
 
+/// Output sink with a fixed buffer: `Vec<u8>` as the writer would grow by a length read back from
+/// the heap (a symbolic allocation size, which CBMC's array post-processing does not survive).
+struct Sink {
+    buf: [u8; 8],
+    len: usize,
+    flushed: usize,
+}
+
+impl Write for Sink {
+    fn write(&mut self, data: &[u8]) -> io::Result<usize> {
+        let mut i = 0;
+        while i < data.len() && self.len < self.buf.len() {
+            self.buf[self.len] = data[i];
+            self.len += 1;
+            i += 1;
+        }
+        assert!(i == data.len(), "harness: sink large enough for the payloads used here");
+        Ok(i)
+    }
+    fn flush(&mut self) -> io::Result<()> {
+        self.flushed += 1;
+        Ok(())
+    }
+}
+
 /// Environment of one call: empty standard input, a byte sink, no argv, a fresh handle table.
 struct World {
     input: std::io::Empty,
-    output: Vec<u8>,
+    output: Sink,
     host: HostRuntime,
 }
 
 impl World {
     fn new() -> Self {
-        World { input: std::io::empty(), output: Vec::new(), host: HostRuntime::new() }
+        World { input: std::io::empty(), output: Sink { buf: [0; 8], len: 0, flushed: 0 }, host: HostRuntime::new() }
     }
     fn invoke(&mut self, role: BuiltinValueRole, args: Vec<ZValue>) -> Result<ZCompute, i32> {
         BuiltinRuntime::invoke(
